@@ -626,3 +626,4 @@ MANIFEST = {
 MANIFEST["text"] += " Derived-dimension specs: 17 specs naming derived dimensions alone or in expressions with their own exponent ('[mass]/[volume]', '1/[volume]', '[velocity]**2', '[pressure]', ...) x 14 values through ureg.check and Quantity.check against hand-written (L, M, T) exponents, and 8x8 two-parameter spec pairs x 7x7 value pairs."
 MANIFEST["text"] += ' Zero-magnitude quantities and bare 0 are in the value alphabets (by position and by keyword over a default).'
 MANIFEST["text"] += " After refusals: all sequences of <= 3 calls to 6 decorated functions (wraps / check, bare or stacked under with_context, some raising themselves) x 3 arguments, then a frequency-declared wraps and check handed a length must still refuse it, a good call must receive the converted magnitude, and no context may be left active."
+MANIFEST["text"] += ' In the return clause one decorator object decorates two functions, each called for every value pair in turn.'
